@@ -34,6 +34,7 @@ PROBES = ['handler_by_exact_name', 'handler_by_base_class',
           'raise_tag_by_name', 'raise_tag_by_expr', 'return_in_raise_body',
           'nested_try_depth3', 'base_exception_through_finally',
           'empty_handler_selected', 'impostor_class_same_name',
+          'sub_template_reentered_while_unwinding',
           'error_binding_shadowed_by_inner_handler', 'pair_second_fault_fired']
 RULE = ('programs: seeded ASTs of try/except*/else, try/finally, dtml-raise '
         '(builtin name or computed class, rendered body as message), '
@@ -176,6 +177,39 @@ class Gen:
         self.swarm = saved
         self.subs[name] = {'body': b,
                            'defaults': r.choice([{}, {'dflt': 'd'}])}
+        if r.random() < 0.35:
+            # bounded self-recursion, preferably out of a finally part: the
+            # same tags run again while a return or an exception is pending
+            # (never inside a dtml-raise body: errors there are not asserted)
+            allb = [x for x in E.walk_bodies(b) if x[0]['n'] and
+                    x[0]['n'][0].get('site', '')[:2] == 'M_']
+            fins = [x[0] for x in allb if x[2] in ('finally', 'except')]
+            tb = r.choice(fins or [x[0] for x in allb])
+            if r.random() < 0.5:
+                # the classic: a return (or raise) pending in a try body
+                # while its finally part runs the same template again
+                saved_sw = self.swarm
+                self.swarm = [k for k in saved_sw if k != 'sub']
+                node = self.n_tryf(depth + 1, 1, False)
+                self.swarm = saved_sw
+                rs = self.site('R')
+                self.script[rs] = {'tok': rs}
+                node['body']['n'].append(
+                    {'k': 'return', 'val': {'site': rs, 'how': 'name'}}
+                    if r.random() < 0.7 else
+                    {'k': 'raise', 'type': {'name': 'ValueError'},
+                     'body': {'b': self.bid(), 'n': [
+                         {'k': 'text', 't': 'pending'}]}})
+                b['n'].append(node)
+                tb = node['finally']
+            rc = self.site('NRC')
+            self.script[rc] = [{'v': 1}, {'v': 1}, {'v': 0}]
+            ib = self.bid()
+            inner = {'b': ib, 'n': [self.mark(ib),
+                                    {'k': 'sub', 'name': name}]}
+            tb['n'].append({'k': 'if', 'conds': [{'c': {
+                'site': rc, 'how': 'call'}, 'body': inner}], 'else': None})
+            self.subs[name]['recursive'] = True
         return {'k': 'sub', 'name': name}
 
     def n_wrap(self, depth, td, nr):
@@ -392,6 +426,7 @@ class ProbeModel(M.Model):
         self.hits = set()
         self.try_nest = 0
         self.in_sub = 0
+        self.active = []
 
     def n_try(self, n):
         self.try_nest += 1
@@ -517,11 +552,17 @@ class ProbeModel(M.Model):
             raise
 
     def call_sub(self, name):
+        import sys
+        if self.in_sub and name in self.active and \
+                sys.exc_info()[0] is not None:
+            self.hits.add('sub_template_reentered_while_unwinding')
         self.in_sub += 1
+        self.active.append(name)
         try:
             return M.Model.call_sub(self, name)
         finally:
             self.in_sub -= 1
+            self.active.pop()
 
 
 def run_case(case):
